@@ -61,6 +61,8 @@ var originAtoms = func() []originAtom {
 	inv("prohibited", "null", "file:///somepath", "file://example.com")
 	// Punycode labels that decode to right-to-left script and violate the IDNA Bidi rule (RFC 5893): not "valid Punycode"
 	inv("", "https://1a.xn--9dbne9b.com", "https://*.xn--9dbne9b.1a.example.com", "https://xn--a-bicuf1d.com")
+	// non-ASCII letters that Unicode case mapping turns into ASCII (Kelvin sign, dotted capital I, long s), in host and scheme
+	inv("", "https://\u212aexample.com", "https://example.\u212aom", "http\u017f://example.com", "https://ex\u0130mple.com", "https://*.\u212a.example.com")
 	inv("", "https://www.résumé.com", "https://Example.com", "HTTPS://example.com", "https://user@example.com", "https://user:pw@example.com",
 		"https://example.com/", "https://example.com/path", "https://example.com?q=1", "https://example.com#f", " https://example.com", "https://example.com ",
 		"https://example.com:", "https://example.com:0", "https://example.com:65536", "https://example.com:123456", "https://example.com:080",
@@ -89,6 +91,8 @@ var methodAtomsL = []nameAtom{
 	{"CONNECT", "forbidden"}, {"TRACE", "forbidden"}, {"TRACK", "forbidden"}, {"connect", "forbidden"}, {"Trace", "forbidden"}, {"tRaCk", "forbidden"},
 	{"", "invalid"}, {"GE T", "invalid"}, {"GET,POST", "invalid"}, {"résumé", "invalid"}, {"PO\x00ST", "invalid"}, {"(GET)", "invalid"}, {"GET/", "invalid"},
 	{" GET", "invalid"}, {"GET\t", "invalid"}, {"G:T", "invalid"},
+	// non-ASCII letters whose Unicode case mapping or folding lands on ASCII (Kelvin sign, dotted capital I, long s)
+	{"TRAC\u212a", "invalid"}, {"\u212aEY", "invalid"}, {"DELETE\u0130", "invalid"}, {"\u017fEARCH", "invalid"},
 }
 
 // ---- request-header atoms -------------------------------------------------
@@ -105,6 +109,7 @@ var reqHdrAtomsL = []nameAtom{
 	{"Access-Control-Allow-Headers", "prohibited"}, {"ACCESS-CONTROL-ALLOW-PRIVATE-NETWORK", "prohibited"}, {"Access-Control-Max-Age", "prohibited"},
 	{"Access-Control-Expose-Headers", "prohibited"},
 	{"", "invalid"}, {"X Foo", "invalid"}, {"x-foo:", "invalid"}, {"résumé", "invalid"}, {"a,b", "invalid"}, {"x\x00", "invalid"}, {" x-foo", "invalid"}, {"x-foo ", "invalid"}, {"(x)", "invalid"},
+	{"X-Api-\u212aey", "invalid"}, {"x-\u212a", "invalid"}, {"Cook\u0130e", "invalid"}, {"\u017fec-fetch-mode", "invalid"}, {"Author\u0130zation", "invalid"}, {"x-foo\u0131", "invalid"},
 }
 
 // ---- response-header atoms ------------------------------------------------
@@ -116,6 +121,7 @@ var resHdrAtomsL = []nameAtom{
 	{"Origin", "prohibited"}, {"origin", "prohibited"}, {"Access-Control-Request-Method", "prohibited"}, {"access-control-request-headers", "prohibited"},
 	{"Access-Control-Request-Private-Network", "prohibited"},
 	{"", "invalid"}, {"X Resp", "invalid"}, {"x-resp:", "invalid"}, {"résumé", "invalid"}, {"a,b", "invalid"}, {"x\x00", "invalid"}, {"x-resp\n", "invalid"},
+	{"\u017fet-cookie", "invalid"}, {"X-\u212aey", "invalid"}, {"Or\u0130gin", "invalid"}, {"x-re\u017fp", "invalid"},
 }
 
 func findOriginAtom(s string) (originAtom, bool) {
